@@ -19,8 +19,8 @@ func init() {
 			"final and non-final, compressed and not, data and control opcodes, messageWriter.flushFrame and Conn.WriteControl hand the transport exactly [FIN RSV1 0 0 opcode][MASK len7][extended length][masking key iff client][payload], " +
 			"the payload being the buffered bytes (masked iff client) followed by the extra slice, with the length fields equal to the number of payload bytes that follow; C13.ctl - control frames longer than 125 bytes or not final are " +
 			"refused before any transport write; C13.mask - mask bit, key and masking are selected by the same role test (shown by C13.hdr holding for both roles), and every frame written is masked from position 0 of its own key; C13.seq - after a non-final frame the writer continues with opcode 0, " +
-			"an empty buffer and RSV1 cleared, and Close flushes a final frame; C13.hs - the accept key is base64(SHA-1(key + RFC 6455 GUID)), the server refuses non-GET/non-upgrade/wrong-version/empty-key requests and the client " +
-			"verifies status 101, Upgrade, Connection and the accept key. " +
+			"an empty buffer and RSV1 cleared, and Close flushes a final frame; on the receiving side every accepted frame assigns the reader's 'compressed' flag; C13.hs - the accept key is base64(SHA-1(key + RFC 6455 GUID)), the server refuses non-GET/non-upgrade/wrong-version/empty-key requests and the client " +
+			"verifies status 101, Upgrade, Connection and the accept key, and Dial clears the handshake deadline in both directions before it returns a connection. " +
 			"Not decided: payload integrity for all sizes x partitions x APIs x compression levels (buffer arithmetic of ncopy/Write/truncWriter and the deflate stream are runtime behaviour); the bytes the unsafe word-wise masking produces are trusted as upstream code (its key-position accounting is decided: C13.unmask - every byte-wise XOR loop of maskBytes carries the key position and hands it on, word-wise loops step by a multiple of 4, every return hands back the carried position).",
 		Assume: []string{"maskBytes masks exactly the slice it is given (upstream gorilla code, pointer arithmetic outside Go's bounds checking)", "net.Conn.Write writes the whole buffer or fails", "layout transcribed from RFC 6455 5.2 and RFC 7692 6"},
 		Run:    runC13,
@@ -336,13 +336,17 @@ func wsWriteControlOut(r abs.Result) ([]abs.Seg, string) {
 // every frame. So the running key position is reset exactly where a frame's key is installed, the payload reader
 // unmasks exactly the bytes it read with the running position and keeps the position the masking routine returns,
 // and control payloads are unmasked from position 0.
-func checkWSUnmask(c *Ctx) {
+func checkWSUnmask(c *Ctx) { checkWSUnmaskRule(c, "C13.unmask", true) }
+
+// checkWSUnmaskRule: the same obligations under another rule id (C14: "pings are answered with pongs carrying the same
+// payload" and the close payload checks depend on control payloads being unmasked from position 0).
+func checkWSUnmaskRule(c *Ctx, rule string, writers bool) {
 	P, R := c.P, c.R
-	R.Require("C13.unmask", 4)
+	R.Require(rule, 3)
 	adv := P.Func("websocket", "(*Conn).advanceFrame")
 	rd := wsPayloadReader(P) // (*messageReader).Read, or the helper the per-frame read was extracted into
 	mb := P.Func("websocket", "maskBytes")
-	if !R.Anchor(adv != nil && rd != nil && mb != nil, "C13.unmask", "websocket.advanceFrame/messageReader.Read/maskBytes") {
+	if !R.Anchor(adv != nil && rd != nil && mb != nil, rule, "websocket.advanceFrame/messageReader.Read/maskBytes") {
 		return
 	}
 	// (1) key installed <=> position reset, in the same frame-header region
@@ -388,7 +392,7 @@ func checkWSUnmask(c *Ctx) {
 			}
 		}
 	}
-	R.Check(ok1, "C13.unmask", "websocket|advanceFrame|key-position-reset-with-every-frame-key", P.Pos(adv.Pos()),
+	R.Check(ok1, rule, "websocket|advanceFrame|key-position-reset-with-every-frame-key", P.Pos(adv.Pos()),
 		"the running mask position is reset to 0 where each frame's masking key is installed",
 		"the running mask position is not reset together with the installation of a frame's masking key: the key of a continuation frame is applied from a rotated position and every payload byte after the first frame whose length is not a multiple of 4 is corrupted", nil)
 	// (2) payload reader
@@ -423,7 +427,7 @@ func checkWSUnmask(c *Ctx) {
 		}
 		ok3 = ok3 && srv
 	})
-	R.Check(ok2 && ok3, "C13.unmask", "websocket|(*messageReader).Read|unmasks-what-it-read", P.Pos(rd.Pos()),
+	R.Check(ok2 && ok3, rule, "websocket|(*messageReader).Read|unmasks-what-it-read", P.Pos(rd.Pos()),
 		"the payload reader unmasks exactly the n bytes it read, from the running position, keeps the position returned, and only in the server role",
 		"the payload reader does not unmask exactly the bytes it read with the running key position (position not carried over, wrong window, or not tied to the server role)", nil)
 	// (3) control payloads from position 0 in the server role
@@ -441,9 +445,12 @@ func checkWSUnmask(c *Ctx) {
 			}
 		}
 	})
-	R.Check(ok4, "C13.unmask", "websocket|advanceFrame|control-payload-unmasked-from-0", P.Pos(adv.Pos()),
+	R.Check(ok4, rule, "websocket|advanceFrame|control-payload-unmasked-from-0", P.Pos(adv.Pos()),
 		"control frame payloads are unmasked with the frame's key from position 0 in the server role",
 		"control frame payloads are not unmasked with the frame's key from position 0", nil)
+	if !writers {
+		return
+	}
 	// (4) the masking routine accounts for every byte it masks in the position it returns
 	checkMaskAdvance(c, mb)
 	// (5) sending side: every frame carries a fresh key and is masked from key position 0 (RFC 6455 5.3: octet i of the
@@ -472,8 +479,77 @@ func checkWSUnmask(c *Ctx) {
 	}
 }
 
+// checkWSFrameFlags (receiving side): what the reader remembers about "the last frame read" is assigned for every
+// frame, not only when it is set - whether the frame is compressed (RSV1) is a per-message fact on the wire, so a flag
+// that is only ever raised makes every message after the first compressed one go through the inflater.
+func checkWSFrameFlags(c *Ctx) {
+	P, R := c.P, c.R
+	adv := P.Func("websocket", "(*Conn).advanceFrame")
+	conn := P.NamedType("websocket", "Conn")
+	if !R.Anchor(adv != nil && conn != nil, "C13.seq", "websocket.(*Conn).advanceFrame") {
+		return
+	}
+	fv := structField(conn, "readDecompress")
+	if !R.Anchor(fv != nil, "C13.seq", "websocket.Conn.readDecompress") {
+		return
+	}
+	isStore := func(in ssa.Instruction) bool {
+		st, ok := in.(*ssa.Store)
+		return ok && core.FieldVar(st.Addr) == fv
+	}
+	// must-pass dataflow (the function has too many paths to enumerate): OUT[b] = IN[b] or b stores; IN = and over preds
+	out := map[*ssa.BasicBlock]bool{}
+	for _, b := range adv.Blocks {
+		out[b] = true
+	}
+	for changed := true; changed; {
+		changed = false
+		for _, b := range adv.Blocks {
+			in := len(b.Preds) > 0
+			for _, pr := range b.Preds {
+				if !out[pr] {
+					in = false
+				}
+			}
+			o := in
+			for _, x := range b.Instrs {
+				if isStore(x) {
+					o = true
+				}
+			}
+			if o != out[b] {
+				out[b], changed = o, true
+			}
+		}
+	}
+	ok, n := true, 0
+	where := P.Pos(adv.Pos())
+	for _, ret := range core.Returns(adv) {
+		if len(ret.Results) < 2 {
+			continue
+		}
+		success := false
+		for _, leaf := range core.ValueLeaves(ret.Results[1]) {
+			if core.IsNilConst(leaf) {
+				success = true
+			}
+		}
+		if !success {
+			continue // a failed read: nothing is delivered
+		}
+		n++
+		if !out[ret.Block()] {
+			ok, where = false, P.InstrPos(ret)
+		}
+	}
+	R.Check(ok && n > 0, "C13.seq", "websocket|advanceFrame|compressed-flag-assigned-for-every-frame", where,
+		"every frame that is accepted assigns the 'compressed' flag of the reader (set or cleared)",
+		"a frame can be accepted without the reader's 'compressed' flag being assigned: the flag keeps the value of an earlier frame, and a message sent uncompressed after a compressed one is run through the inflater (corrupt input) - or the reverse", nil)
+}
+
 func checkWSSeq(c *Ctx) {
 	P, R := c.P, c.R
+	checkWSFrameFlags(c)
 	ffn := P.Func("websocket", "(*messageWriter).flushFrame")
 	if !R.Anchor(ffn != nil, "C13.seq", "websocket.(*messageWriter).flushFrame") {
 		return
@@ -680,6 +756,7 @@ func checkWSHandshake(c *Ctx) {
 	// the 101 response is read through the connection's own buffered reader, so frames that arrive in the same
 	// segment as the response stay available to the Conn
 	if dial := P.Func("websocket", "(*Dialer).Dial"); dial != nil {
+		checkDialDeadlines(c, dial)
 		n := 0
 		var mk ssa.Instruction
 		core.EachInstr(dial, func(in ssa.Instruction) {
@@ -739,4 +816,116 @@ func checkWSHandshake(c *Ctx) {
 	guardsEndInError("(*Upgrader).Upgrade", "server side of RFC 6455 4.2.1", []string{"GET", "const:Connection", "const:upgrade", "const:websocket", "const:Sec-Websocket-Version", "const:13", "const:Sec-Websocket-Key"})
 	guardsEndInError("(*Dialer).Dial", "client side of RFC 6455 4.1", []string{"101", "const:Upgrade", "const:Connection", "const:Sec-Websocket-Accept"})
 	_ = types.Typ
+}
+
+// checkDialDeadlines: the deadline Dial arms on the transport for the handshake does not outlive it.  A may-analysis
+// per direction (read, write): SetDeadline/SetReadDeadline/SetWriteDeadline with a non-zero time arms, with the zero
+// time clears; no successful return is reached with a direction still possibly armed - a read deadline left behind
+// fails every read of the established connection once the handshake timeout has passed.
+func checkDialDeadlines(c *Ctx, dial *ssa.Function) {
+	P, R := c.P, c.R
+	isZeroTime := func(v ssa.Value) bool {
+		if k, isK := v.(*ssa.Const); isK && k.Value == nil {
+			return true // the zero value of a struct type
+		}
+		ld, ok := v.(*ssa.UnOp)
+		if !ok || ld.Op != token.MUL {
+			return false
+		}
+		a, ok := ld.X.(*ssa.Alloc)
+		if !ok {
+			return false
+		}
+		for _, r := range *a.Referrers() {
+			if _, isSt := r.(*ssa.Store); isSt {
+				return false
+			}
+		}
+		return true
+	}
+	// effect of an instruction on (read, write): 0 none, 1 arm, 2 clear
+	effect := func(in ssa.Instruction) (rd, wr int) {
+		call, ok := in.(*ssa.Call)
+		if !ok || !call.Call.IsInvoke() || len(call.Call.Args) != 1 || types.TypeString(call.Call.Args[0].Type(), nil) != "time.Time" {
+			return
+		}
+		e := 1
+		if isZeroTime(call.Call.Args[0]) {
+			e = 2
+		}
+		switch call.Call.Method.Name() {
+		case "SetDeadline":
+			return e, e
+		case "SetReadDeadline":
+			return e, 0
+		case "SetWriteDeadline":
+			return 0, e
+		}
+		return
+	}
+	type st struct{ rd, wr bool }
+	out := map[*ssa.BasicBlock]st{}
+	arms := 0
+	for changed := true; changed; {
+		changed = false
+		for _, b := range dial.Blocks {
+			var in st
+			for _, pr := range b.Preds {
+				in.rd = in.rd || out[pr].rd
+				in.wr = in.wr || out[pr].wr
+			}
+			for _, x := range b.Instrs {
+				r, w := effect(x)
+				if r == 1 {
+					in.rd = true
+				} else if r == 2 {
+					in.rd = false
+				}
+				if w == 1 {
+					in.wr = true
+				} else if w == 2 {
+					in.wr = false
+				}
+			}
+			if in != out[b] {
+				out[b], changed = in, true
+			}
+		}
+	}
+	core.EachInstr(dial, func(in ssa.Instruction) {
+		if r, w := effect(in); r == 1 || w == 1 {
+			arms++
+		}
+	})
+	bad := ""
+	nSuccess := 0
+	where := P.Pos(dial.Pos())
+	for _, ret := range core.Returns(dial) {
+		n := len(ret.Results)
+		if n == 0 {
+			continue
+		}
+		success := false
+		for _, leaf := range core.ValueLeaves(core.ReturnOperand(ret, n-1)) {
+			if core.IsNilConst(leaf) {
+				success = true
+			}
+		}
+		if !success {
+			continue
+		}
+		nSuccess++
+		if s := out[ret.Block()]; s.rd || s.wr {
+			which := "read"
+			if s.wr && s.rd {
+				which = "read and write"
+			} else if s.wr {
+				which = "write"
+			}
+			bad, where = which, P.InstrPos(ret)
+		}
+	}
+	R.Check(bad == "" && arms > 0 && nSuccess > 0, "C13.hs", "websocket|(*Dialer).Dial|handshake-deadline-cleared", where,
+		fmt.Sprintf("the deadline armed for the handshake (%d arming call(s)) is cleared in both directions before Dial returns a connection", arms),
+		"Dial can return an established connection with the handshake's "+bad+" deadline still armed on the transport: once the handshake timeout has passed, every read of the connection fails with an i/o timeout although the peer sends messages", nil)
 }
